@@ -40,7 +40,8 @@ PROPS["C01"] = {
             "full Inorder after every operation while Len<=64 (every 8th above) with a sorted reference set keyed on K "
             "with an observable Tag. A case is NON-TRIVIAL iff it contains a monotone run of >=8 inserts or a drain "
             "below half of the peak size, AND a removal of a node with two children followed by a lookup. Distinct = "
-            "distinct canonical JSON of the case (64-bit hash), unioned over shards.",
+            "distinct canonical JSON of the case (64-bit hash), unioned over shards. "
+            "Macro op prune: remove every key (or every other key) that is not on the path from the root to a deepest leaf, so the size shrinks while the height stays.",
     "assumptions": COMMON_ASSUME + ["the comparator is a valid total preorder on one struct key type"],
 }
 
@@ -92,7 +93,8 @@ PROPS["C04"] = {
             "Set(s,new), Get(s). leg float: omap.New[float64,int] (natural order) with keys NaN (two payloads), +-Inf, "
             "-0.0, 0.0 and ordinary values; Set/Delete/GetOK/Seek, Len, Keys and a First..Next sweep after every op against "
             "a reference ordered by cmp.Compare (NaN equals itself and sorts first, -0 equals +0); non-trivial = a NaN key "
-            "was used in a history of >=4 ops. Distinct = hash of the case JSON.",
+            "was used in a history of >=4 ops. Distinct = hash of the case JSON. "
+            "leg str: omap.Map[string,string] (New or NewFunc(strings.Compare), started from the zero Map in a quarter of the cases) over 20 hostile strings as keys AND values ('', ' ', ' a', 'a ', tab, 'b\\n', invalid UTF-8, CR, VT ...): Set/Delete/Get/GetOK/Seek/Last+Prev walk/Clear, and after every step Len, Keys, the First..Next iteration and String() == 'omap[' + the k:v pairs separated by one space + ']'; on the zero Map only the operations its documentation lists. NON-TRIVIAL (leg str) iff at some step the first key or the last value is empty or has outer white space.",
     "assumptions": COMMON_ASSUME + ["under the k/2 comparator only comparator-equivalence of reported keys is required, not which representative is stored"],
 }
 
@@ -118,7 +120,8 @@ PROPS["C05"] = {
             " NON-TRIVIAL iff >=3 heap levels were populated and an interior Remove / Set / mid-life Reorder was followed "
             "by >=3 Pops. Legs sort/sortx: heapq.Sort on random slices and on every sequence over {0,1,2} up to length "
             "8 (quick) / 11 (thorough), both directions: output sorted and a permutation by identity; non-trivial = "
-            "length>=4 with duplicates. Distinct = hash of the case JSON (rapid legs) / distinct by construction (sortx).",
+            "length>=4 with duplicates. Distinct = hash of the case JSON (rapid legs) / distinct by construction (sortx). "
+            "Value vectors for Set / NewWithData / Sort are independent values (half of the cases) or ordered along the parent links (i-1)/2 (already a heap), along the wrong links i/2, sorted, or constant, each in either direction.",
     "assumptions": COMMON_ASSUME + ["a defect whose symptoms coincide with a deviation model of F1/F2 on every generated history would be filed under the known finding"],
 }
 
@@ -153,7 +156,8 @@ PROPS["C07"] = {
             "Distinct = distinct canonical JSON of the case (64-bit hash), unioned over shards. "
             "leg exh: every sequence over {Add, Push, Pop, PopLast} of length 0..L (L = 9 quick, 11 thorough), in size order, "
             "for each NewSize(n), n in 0..4, same comparison after every step; distinct by construction; non-trivial by the "
-            "same shadow rule.",
+            "same shadow rule. "
+            "One peek in twenty uses an offset at the ends of the int range (math.MinInt, MinInt+1, MaxInt, MaxInt-Len, +-2^31, +-2^32).",
     "assumptions": COMMON_ASSUME + [
         "element type is int; capacity growth of the shadow follows the runtime's append for the same element type (labels only)",
         "statement coverage of queue.go / slice.Rotate is not recorded by the driver; the shadow classes "
@@ -268,7 +272,8 @@ PROPS["C13"] = {
             "and extends at most n lines beyond it; Diff.Edits (a full script from Left to Right), Left and Right must "
             "equal snapshots taken after New. NON-TRIVIAL iff the diff has >=2 chunks whose gap is smaller than 2n "
             "(contexts meet or overlap), n>0, and an input has a repeated line. Distinct: by construction (exh) / hash "
-            "of the case JSON (rand).",
+            "of the case JSON (rand). "
+            "Memory layouts: the two arguments of New are separate slices, or (where one is a prefix / suffix of the other, which the generator produces on purpose) that very prefix / suffix of the other's memory, or adjacent windows of one buffer.",
     "assumptions": COMMON_ASSUME,
     "technique": "small-scope exhaustive enumeration + property-based testing (rapid) with an executable patch-application oracle",
 }
@@ -304,7 +309,8 @@ PROPS["C18"] = {
             "operands of different sizes AND a binary operation with a nil or empty operand.  The classes histogram "
             "counts, per case, receiver_larger / receiver_smaller / nil operand / add on nil receiver / self operand / "
             "pop on empty and non-empty / constructor alias probes and every op kind.  Distinct = distinct canonical "
-            "JSON of the case (64-bit hash), unioned over shards.",
+            "JSON of the case (64-bit hash), unioned over shards. "
+            "Range is called with a restartable sequence or with a single-use one (a second pass yields nothing).",
     "assumptions": COMMON_ASSUME + [
         "element type int only; the generic code has no type-dependent branch",
         "writing to the underlying map directly (documented as allowed) is used for the aliasing probe",
@@ -349,7 +355,8 @@ PROPS["C19"] = {
             "a stat case re-runs its R counters with fresh entropy (a real bias fails again; not bit-reproducible); a "
             "replay of a det case re-runs its reps counters.  Distinct = distinct canonical JSON of the case (det, "
             "64-bit hash, unioned over shards); the 12 stat streams of a shard are distinct by construction (size x "
-            "near/far).  evaluations counts streams; the class `counter_runs` counts the individual counters.",
+            "near/far).  evaluations counts streams; the class `counter_runs` counts the individual counters. "
+            "leg huge: buffers of 2^17+1 .. 2^20 elements: fill with size-1, about 3/4 size, or 1-2 x size distinct values (exact Len/Count checked every 4096 values while below capacity; Count = Len x 2^k at the end), Reset (Len = Count = 0), then a small exact stream; non-trivial iff more than 2^18 values were buffered at the Reset.",
     "assumptions": COMMON_ASSUME + [
         "crypto/rand and math/rand/v2 ChaCha8 deliver independent uniform bits (the statistical clause is a statement about the algorithm, not about the entropy source)",
         "the false-alarm bound of the statistical leg for buffer sizes below 8 rests on simulation of the Student statistic out to the 1e-5 level and a normal-tail extrapolation with a safety factor of about 2 in standard deviations; it is not a proved bound",
@@ -510,7 +517,8 @@ PROPS["C11"] = {
             "with copies afterwards. A pair is NON-TRIVIAL iff it has >= 2 DISTINCT longest common subsequences (distinct "
             "as sequences of values; counted by an independent next-occurrence DP that was validated against brute force) "
             "- the ambiguous alignments. Distinct = distinct by construction (exh) / distinct canonical JSON of the pair "
-            "(rand, 64-bit hash, unioned over shards).",
+            "(rand, 64-bit hash, unioned over shards). "
+            "leg big (rapid): lhs = 0..n-1 (optionally mod 2/7/100/1000) for n in {1100, 2050, 4097, 4100, 4200, 5000}, rhs = lhs with up to 6 deletions and 6 insertions (one of them near the start), either role; the same validity / span / canonical-form checks, minimality against a two-row LCS-length DP; non-trivial iff the input has repeats.",
     "assumptions": COMMON_ASSUME + ["elements are ints compared with ==; EditScript is generic in T but its control flow "
                                     "does not depend on T"],
 }
@@ -536,7 +544,7 @@ PROPS["C12"] = {
             "length equals an independent O(n^2) DP optimum, and the input equals a copy taken before the call. "
             "NON-TRIVIAL iff len(LNDS) > len(LIS) under the comparison used (a run of equivalent elements matters for "
             "the optimum). "
-            "LCS legs: a case is {as, bs, fold}; fold=false calls slice.LCS, fold=true calls slice.LCSFunc with the "
+            "LCS legs: a case is {as, bs, fold, lay, win} (lay 4/5: one argument is a window of the other one's memory; LIS cases may be stretched linearly over the whole int range, Wide); fold=false calls slice.LCS, fold=true calls slice.LCSFunc with the "
             "case-folding equality a>>1 == b>>1 (element = 2*letter + case bit). leg lcsexh: every pair over {0,1,2} "
             "with lengths <= 5 and over {0,1} with lengths <= 8, each with and without fold (quick; 0.78 M cases) / "
             "{0,1,2} <= 7, {0,1} <= 10, {0..3} <= 5 using the symbol 3 (thorough; 33 M), in order of total length. leg "
